@@ -75,12 +75,13 @@ var table = []sig{
 		func(b []byte) bool {
 			return smallFtyp(b) && (at(b, 8, "heic") || at(b, 8, "heix") ||
 				(at(b, 8, "mif1") && (at(b, 16, "heic") || at(b, 20, "heic"))) ||
-				(at(b, 8, "msf1") && at(b, 20, "hevc")))
+				(at(b, 8, "msf1") && (at(b, 16, "hevc") || at(b, 20, "hevc"))))
 		}, nil},
 	{"avif", imagetype.ImageAVIF,
 		func(b []byte) bool { return isFtyp(b) && anyBrand(b, "avif", "avis") },
 		func(b []byte) bool {
-			return smallFtyp(b) && (at(b, 8, "avif") || (at(b, 8, "mif1") && at(b, 20, "avif")))
+			// (the order of the compatible brands is the writer's choice: either of the two slots inside the first 24 bytes)
+			return smallFtyp(b) && (at(b, 8, "avif") || (at(b, 8, "mif1") && (at(b, 16, "avif") || at(b, 20, "avif"))))
 		}, []string{"heif"}},
 	{"cr3", imagetype.ImageCR3,
 		func(b []byte) bool { return isFtyp(b) && at(b, 8, "crx ") },
@@ -194,6 +195,8 @@ func canon() []header {
 		mk("msf1-hevc20", "\x00\x00\x00\x1cftypmsf1\x00\x00\x00\x00msf1hevc", imagetype.ImageHEIF),
 		mk("avif", "\x00\x00\x00\x1cftypavif\x00\x00\x00\x00avifmif1", imagetype.ImageAVIF),
 		mk("mif1-avif20", "\x00\x00\x00\x1cftypmif1\x00\x00\x00\x00mif1avif", imagetype.ImageAVIF),
+		mk("mif1-avif16", "\x00\x00\x00\x1cftypmif1\x00\x00\x00\x00avifmif1", imagetype.ImageAVIF),
+		mk("msf1-hevc16", "\x00\x00\x00\x1cftypmsf1\x00\x00\x00\x00hevcmsf1", imagetype.ImageHEIF),
 		mk("cr3", "\x00\x00\x00\x18ftypcrx \x00\x00\x00\x01crx isom", imagetype.ImageCR3),
 		mk("tiff-ii", "II*\x00\x08\x00\x00\x00\x13\x00\xfe\x00\x04\x00\x01\x00\x00\x00\x01\x00\x00\x00\x03\x01", imagetype.ImageTiff),
 		mk("tiff-mm", "MM\x00*\x00\x00\x00\x08\x00\x1b\x00\xfe\x00\x04\x00\x00\x00\x01\x00\x00\x00\x01\x01\x00", imagetype.ImageTiff),
